@@ -108,6 +108,22 @@ fn main() {
     }
     let ls = layers(rep.tier);
     let states = walk(&ls, St::default, |st, _l, cfg, pristine, entry| check(st, cfg, pristine, entry));
+    let mut states = states;
+    let mut scaled_cases = 0u64;
+    {
+        let mut st = St::default();
+        // (the long-lived formatters are keyed by the address of their pristine copy: all of
+        // them stay alive, at distinct addresses, for the whole pass)
+        let scfgs = vh_seq::emfx::gen_::scaled_configs();
+        let ps: Vec<Emf> = scfgs.iter().map(|c| c.build()).collect();
+        for (cfg, p) in scfgs.iter().zip(&ps) {
+            for (_name, entry) in vh_seq::emfx::gen_::scaled_entries(cfg, rep.tier) {
+                check(&mut st, cfg, p, &entry);
+                scaled_cases += 1;
+            }
+        }
+        states.push(st);
+    }
     let mut shapes = BTreeSet::new();
     let (mut cases, mut compared, mut records, mut ood) = (0, 0, 0, 0);
     let mut reused_total = 0u64;
@@ -125,6 +141,7 @@ fn main() {
     rep.set("cases_repeated_on_a_long_lived_formatter", reused_total);
     rep.set("distinct_nontrivial", shapes.len() as u64);
     rep.set("rule", "complete cross products of the alphabets in emfx/gen_.rs (layers A1,A2,B,C) restricted to the documented domain; every accepted output is parsed by the strict parser and compared, as a multiset of records, with an independent reference interpretation (emfx/reference.rs::expected_records); distinct = distinct expected-record shapes (records, dimension sets, definitions, per-member kind/counts)");
+    rep.set("scaled_entry_cases", scaled_cases);
     rep.set("exhaustive", true);
     rep.set("layers", ls.iter().map(|l| json!({"layer": l.name, "cases": l.size()})).collect::<Vec<_>>());
     rep.assume("number equality: integer observations by exact lexeme, floating ones by f64 round trip of the lexeme");
